@@ -10,7 +10,7 @@ import z3
 
 from . import extract
 from .core import Unsupported, PathEnd, Infeasible, Impure
-from .values import (Obj, Rec, SymOpt, SymSeq, SymSet, SymMap, MapEntry, MapItems, Untracked, Func,
+from .values import (Obj, Rec, SymOpt, SymSeq, SymSet, SymMap, MapEntry, MapItems, Enumerated, Untracked, Func,
                      Closure, ClassRef, ModuleRef, Poison, UF, ObjS, StrS, IntS, RealS, BoolS, to_z3,
                      wrap, is_sym, seq_col, set_expr)
 
@@ -102,6 +102,7 @@ class Spec:
         self.globals = {}       # extra global names
         self.on_call = None
         self.abstract_comprehensions = set()   # (qualname, ordinal) whose value is Untracked
+        self.truthy_classes = set()            # Obj class tags whose instances are always truthy (e.g. re.Match)
 
 
 def assigned_and_mutated(body):
@@ -231,6 +232,8 @@ class Interp:
             raise Unsupported('truthiness of sort %s' % s)
         if isinstance(v, Obj) and v.cls in ('pyany', 'pydict'):
             return self.ctx.fresh('nondet', BoolS)
+        if isinstance(v, Obj) and v.cls in self.spec.truthy_classes:
+            return True
         if isinstance(v, Obj):
             return UF('truthy', ObjS, BoolS)(v.expr)
         if isinstance(v, SymOpt):
@@ -788,6 +791,10 @@ class Interp:
             if root in names and self._fresh_in_body(root, wrapper.body):
                 continue
             raise Unsupported('%s: loop mutates %s which the loop contract does not declare' % (tag, p))
+        enum_start = None
+        if isinstance(it, Enumerated):
+            enum_start = it.start
+            it = it.seq
         is_map = isinstance(it, MapItems)
         is_set = isinstance(it, SymSet) or is_map
         if isinstance(it, SymSeq):
@@ -830,6 +837,8 @@ class Interp:
                 ctx.assume(k >= 0)
                 ctx.assume(k < n)
                 elem = it.elem(k)
+                if enum_start is not None:
+                    elem = (k + enum_start, elem)
                 nxt = k + 1
             else:
                 k = ctx.fresh('P_%s' % tag, n.sort())
@@ -1037,6 +1046,8 @@ class Interp:
             return self.ctx.fresh('str_of_any', StrS)
         if isinstance(x, Obj):
             return UF('str_of_obj', ObjS, StrS)(x.expr)
+        if x is None or isinstance(x, (SymSet, SymMap, SymSeq, list, dict, tuple, SymOpt, bool)):
+            return Untracked()       # text of a container / optional: only ever used in messages
         raise Unsupported('str() of %r' % (x,))
 
     def speculate(self, cond, fn):
@@ -1171,6 +1182,12 @@ class Interp:
                 return SymSet()
             sort = sa.expr.sort().domain()
             return SymSet(z3.SetIntersect(set_expr(a, sort), set_expr(b, sort)))
+        if isinstance(op, ast.Sub) and isinstance(a, (SymSet, set, frozenset)) and isinstance(b, (SymSet, set, frozenset)):
+            sa = a if isinstance(a, SymSet) and a.expr is not None else (b if isinstance(b, SymSet) and b.expr is not None else None)
+            if sa is None:
+                return a
+            sort = sa.expr.sort().domain()
+            return SymSet(z3.SetDifference(set_expr(a, sort), set_expr(b, sort)))
         if isinstance(op, ast.BitOr) and isinstance(a, (SymSet, set, frozenset)) and isinstance(b, (SymSet, set, frozenset)):
             sa = a if isinstance(a, SymSet) and a.expr is not None else (b if isinstance(b, SymSet) and b.expr is not None else None)
             if sa is None:
@@ -1354,6 +1371,11 @@ class Interp:
     def getattr(self, o, attr, node, fr):
         if isinstance(o, Poison):
             raise Unsupported('read of loop-havocked local %s' % o.name)
+        if isinstance(o, SymOpt):
+            # attribute access on an Optional: None would raise AttributeError
+            if not self.ctx.branch(o.is_some, 'notnone@%d' % getattr(node, 'lineno', 0), prune=True):
+                self.raise_py('AttributeError', node)
+            o = o.value
         if isinstance(o, Rec):
             if attr in o.fields:
                 return o.fields[attr]
@@ -1618,6 +1640,8 @@ class Interp:
                 return it.copy()
         ordinal = fr.loop_ordinals[id(e)]
         lspec = self.spec.loops.get((fr.fi.qualname, ordinal))
+        if lspec is None and isinstance(it, (SymMap, MapItems)):
+            return Untracked()       # text built from the keys of a symbolic dict (messages only)
         if lspec is None:
             raise Unsupported('comprehension %d of %s (line %d) over a symbolic collection has no contract'
                               % (ordinal, fr.fi.qualname, e.lineno))
@@ -1799,6 +1823,17 @@ class Interp:
         if isinstance(o, SymMap):
             if attr in ('items', 'values', 'keys') and not args:
                 return MapItems(o, attr)
+            if attr == 'get' and None in o.fields and args:
+                if o.ksort is None:
+                    return args[1] if len(args) > 1 else None
+                zk = self.map_key(o, args[0])
+                val = wrap(z3.Select(o.fields[None], zk))
+                if len(args) == 1 or args[1] is None:
+                    return SymOpt(z3.IsMember(zk, o.dom), val)
+                m = self.merge_values(z3.IsMember(zk, o.dom), val, args[1])
+                if m is _MISSING:
+                    raise Unsupported('dict.get default of a different type')
+                return m
             if attr == 'copy':
                 return o.copy()
         if isinstance(o, MapEntry):
@@ -1860,6 +1895,16 @@ class Interp:
                 return o.setdefault(args[0], args[1] if len(args) > 1 else None)
         if isinstance(o, str) and attr == 'format' and not args:
             return self.str_format(o, kwargs, node)
+        if isinstance(o, str) and attr == 'join' and len(args) == 1:
+            a = args[0]
+            if isinstance(a, (list, tuple)) and all(isinstance(x, str) for x in a):
+                return o.join(a)
+            if isinstance(a, (list, tuple)) and a and all(isinstance(x, str) or (is_sym(x) and x.sort() == StrS) for x in a):
+                out = to_z3(a[0], StrS)
+                for x in a[1:]:
+                    out = z3.Concat(out, z3.StringVal(o), to_z3(x, StrS))
+                return out
+            return Untracked()
         if isinstance(o, str) and all(isinstance(a, (str, int)) for a in args) and attr in STR_METHODS_CONCRETE:
             return getattr(o, attr)(*args)
         if (is_sym(o) and o.sort() == StrS) or isinstance(o, str):
@@ -1896,6 +1941,10 @@ class Interp:
     def str_method(self, z, attr, args, node):
         if attr == 'split' and not args:
             return SymSeq([UF('str.split_ws', StrS, z3.SeqSort(StrS))(z)])
+        if any(isinstance(a, Untracked) for a in args):
+            return Untracked()
+        if attr == 'split' and len(args) == 1:
+            return SymSeq([UF('str.split', StrS, StrS, z3.SeqSort(StrS))(z, to_z3(args[0], StrS))])
         if attr in ('lower', 'upper', 'strip', 'lstrip', 'rstrip', 'title', 'casefold') and not args:
             return UF('str.' + attr, StrS, StrS)(z)
         if attr == 'startswith' and len(args) == 1:
@@ -1971,7 +2020,16 @@ def _b_len(I, args, kwargs, node):
     if is_sym(v) and (v.sort() == StrS or z3.is_seq(v)):
         return z3.Length(v)
     if isinstance(v, (SymSet, SymMap)):
-        return Untracked()      # cardinality is not modelled
+        # cardinality: an uninterpreted non-negative number that is 0 exactly for the empty set
+        st = v.expr if isinstance(v, SymSet) else v.dom
+        if st is None:
+            return 0
+        card = UF('card[%s]' % st.sort(), st.sort(), IntS)(st)
+        if I.ctx.pure:
+            raise Unsupported('len() of a symbolic set inside a speculative evaluation')
+        I.ctx.assume(card >= 0)
+        I.ctx.assume((card == 0) == (st == z3.EmptySet(st.sort().domain())))
+        return card
     raise Unsupported('len of %r' % (v,))
 
 
@@ -2104,6 +2162,8 @@ def _b_enumerate(I, args, kwargs, node):
     start = args[1] if len(args) > 1 else kwargs.get('start', 0)
     items = I.concrete_items(v)
     if items is None:
+        if isinstance(v, SymSeq):
+            return Enumerated(v, start)
         raise Unsupported('enumerate over symbolic collection')
     return [(start + i, x) for i, x in enumerate(items)]
 
